@@ -25,6 +25,7 @@ const (
 	tMapII
 	tMapSI
 	tPtr
+	tVoid // no result (procedures); never the type of a variable
 )
 
 const (
@@ -42,6 +43,15 @@ func (a ivl) abs() int64 { return max(-a.lo, a.hi) }
 type structT struct {
 	name string
 	ints []string // int fields, |v| <= fieldBound
+}
+
+// ret0 is the type of the single result of an exported function, tVoid for a
+// procedure.
+func (f *fn) ret0() ty {
+	if len(f.rets) == 0 {
+		return tVoid
+	}
+	return f.rets[0]
 }
 
 const fieldBound = int64(1) << 31
@@ -75,12 +85,18 @@ type fn struct {
 	impure   bool // writes globals / referents of its arguments
 	recovers bool
 	tainted  bool   // calls, transitively, a function that recovers
+	grouped  bool   // adjacent parameters of one type share the type (`a, b int`)
+	lambda   bool   // a function literal bound to a local variable of the enclosing function
 	lines    [2]int // first and last source line, filled after assembly
 }
 
 func (f *fn) sig() string {
 	var p []string
-	for _, a := range f.params {
+	for i, a := range f.params {
+		if f.grouped && i+1 < len(f.params) && f.params[i+1].t == a.t && f.params[i+1].st == a.st {
+			p = append(p, a.name)
+			continue
+		}
 		p = append(p, a.name+" "+typeName(a.t, a.st))
 	}
 	var r []string
@@ -123,6 +139,8 @@ func typeName(t ty, st *structT) string {
 		return "map[int]int"
 	case tMapSI:
 		return "map[string]int"
+	case tVoid:
+		return "void"
 	default:
 		return "*" + st.name
 	}
@@ -159,8 +177,11 @@ type gen struct {
 	budget    int // statements left in the current function
 	forceDecl int
 	nmark     int
+	inLambda  bool   // the body of a function literal is being generated
+	names     *namer // identifiers of the program (see names_test.go)
 
 	feat   map[string]bool
+	cnt    map[string]int // occurrences of the constructs
 	useInl map[string]bool
 }
 
@@ -171,7 +192,10 @@ func (g *gen) w(f string, a ...any) {
 	g.sb.WriteString("\n")
 }
 
-func (g *gen) f(name string) { g.feat[name] = true }
+func (g *gen) f(name string) {
+	g.feat[name] = true
+	g.cnt[name]++
+}
 
 // ---------------------------------------------------------------- intervals
 
@@ -1717,6 +1741,14 @@ func (g *gen) callStmt(depth int) {
 			f = fs[g.r.Intn(len(fs))]
 		}
 	}
+	// procedures are reachable through call statements only
+	if procs := g.callable(func(f *fn) bool { return len(f.rets) == 0 && f.name != "note" }); len(procs) > 0 && g.r.Intn(3) == 0 {
+		f = procs[g.r.Intn(len(procs))]
+		g.f("procedure-call")
+		if len(g.loops) > 0 {
+			g.f("procedure-call-in-loop")
+		}
+	}
 	a, ok := g.args(f, 1)
 	if !ok {
 		return
@@ -1833,6 +1865,8 @@ func (g *gen) earlyReturn() {
 func (g *gen) ret(early bool) {
 	f := g.cur
 	if len(f.rets) == 0 {
+		// the only effect of a procedure: its accumulator goes into the log
+		g.sink()
 		g.w("return")
 		return
 	}
@@ -2143,6 +2177,8 @@ func (g *gen) stmt(depth int) {
 	case x < 94:
 		g.earlyReturn()
 	case x < 96 && depth > 0:
+		g.lambdaStmt(depth)
+	case x < 97 && depth > 0:
 		g.w("{")
 		g.block(1+g.r.Intn(2), depth-1)
 		g.w("}")
@@ -2280,6 +2316,8 @@ type fnPlan struct {
 	deferKind int
 	stmts     int
 	depth     int
+	noUnc     bool   // the body must not raise uncatchable faults (lambda of a recovering function)
+	hdr, ftr  string // function literals: first and last line instead of the declaration's
 }
 
 // genFunc writes one function. Layout: parameters, `acc`, optional defer,
@@ -2295,7 +2333,7 @@ func (g *gen) genFunc(p fnPlan) {
 	}
 	g.lvl = 1
 	g.hasDefer = p.deferKind > 0
-	g.noUnc = p.recovers
+	g.noUnc = p.recovers || p.noUnc
 	// a defer without recover must not see a panic pass: see the directed case
 	// "defer-without-recover-lets-panic-through"
 	savedNoPanic := g.noPanic
@@ -2304,12 +2342,22 @@ func (g *gen) genFunc(p fnPlan) {
 	f.recovers = p.recovers
 	g.loops = nil
 	g.budget = p.stmts
-	g.w("%s {", f.sig())
+	if len(f.rets) == 0 {
+		f.impure = true // procedures write the log
+	}
+	if p.hdr != "" {
+		g.w("%s", p.hdr)
+	} else {
+		g.w("%s {", f.sig())
+	}
 	g.ind++
 	if f.recv != nil {
 		g.push(&vr{name: "s", t: tPtr, st: f.recv, ro: true})
 	}
 	for _, a := range f.params {
+		if a.name == "_" {
+			continue
+		}
 		c := *a
 		c.lvl = 1
 		if c.t == tBytes || c.t == tInts {
@@ -2468,13 +2516,14 @@ func (g *gen) genFunc(p fnPlan) {
 		}
 		g.foldVar(acc, v)
 	}
-	on, op := g.noHeap, g.pureOnly
-	g.pureOnly = true
-	g.ret(false)
-	g.noHeap, g.pureOnly = on, op
+	g.tail()
 	g.ind--
-	g.w("}")
-	g.w("")
+	if p.hdr != "" {
+		g.w("%s", p.ftr)
+	} else {
+		g.w("}")
+		g.w("")
+	}
 	g.cur = nil
 }
 
@@ -2514,6 +2563,7 @@ type program struct {
 	exported []*fn
 	calls    []callSpec
 	feat     []string
+	cnt      map[string]int
 	hasInit  bool
 	directed string // name of the directed case, "" for generated programs
 }
@@ -2556,17 +2606,21 @@ func genArgs(r *rng.R, f *fn) []argSpec {
 // genProgram builds program number idx from its own PRNG stream.
 func genProgram(idx int, tuples int) *program {
 	r := rng.New(uint64(idx) + 14_000_000)
-	g := &gen{r: r, feat: map[string]bool{}, useInl: map[string]bool{}}
+	g := &gen{r: r, feat: map[string]bool{}, cnt: map[string]int{}, useInl: map[string]bool{}, names: newNamer(idx)}
+	nm := g.names
 	pkg := fmt.Sprintf("p%d", idx)
 	p := &program{idx: idx, pkg: pkg}
 
 	// ---- declarations (types, globals) into the body buffer
 	if r.Intn(4) > 0 {
-		st := &structT{name: "S", ints: []string{"A", "B"}}
+		st := &structT{name: nm.name(poolType, "S", 40), ints: []string{"A", "B"}}
+		if nm.r.Intn(100) < 40 {
+			st.ints = poolFields[nm.r.Intn(len(poolFields))]
+		}
 		g.structs = append(g.structs, st)
-		g.w("type S struct {")
-		g.w("\tA int")
-		g.w("\tB int")
+		g.w("type %s struct {", st.name)
+		g.w("\t%s int", st.ints[0])
+		g.w("\t%s int", st.ints[1])
 		g.w("\tF bool")
 		g.w("\tT string")
 		g.w("}")
@@ -2592,7 +2646,7 @@ func genProgram(idx int, tuples int) *program {
 	g.noCalls = false
 	ng := 2 + r.Intn(4)
 	for i := range ng {
-		name := fmt.Sprintf("g%d", i)
+		name := nm.name(poolGlobal, fmt.Sprintf("g%d", i), 35)
 		b := intBounds[1+r.Intn(len(intBounds)-1)]
 		g.scope = g.scope[:0]
 		g.scope = append(g.scope, g.globals...)
@@ -2670,10 +2724,11 @@ func genProgram(idx int, tuples int) *program {
 	// ---- methods
 	if len(g.structs) > 0 {
 		for i := range 1 + r.Intn(2) {
-			f := &fn{name: fmt.Sprintf("m%d", i), recv: g.structs[0], retBound: modBig - 1, rets: []ty{tInt},
-				params: []*vr{{name: "a0", t: tInt, bound: 1 << 31}}}
+			f := &fn{name: nm.name(poolMethod, fmt.Sprintf("m%d", i), 40), recv: g.structs[0], retBound: modBig - 1, rets: []ty{tInt},
+				params: []*vr{{name: nm.params(1)[0], t: tInt, bound: 1 << 31}}}
 			if r.Intn(3) == 0 {
 				f.rets = nil
+				g.f("procedure")
 			}
 			g.genFunc(fnPlan{f: f, stmts: 2 + r.Intn(4), depth: 1})
 			f.impure = true
@@ -2684,9 +2739,10 @@ func genProgram(idx int, tuples int) *program {
 	// ---- helpers
 	nh := 2 + r.Intn(4)
 	for i := 0; i < nh; i++ {
-		f := &fn{name: fmt.Sprintf("h%d", i), retBound: modBig - 1}
+		f := &fn{name: nm.name(poolHelper, fmt.Sprintf("h%d", i), 45), retBound: modBig - 1, grouped: r.Intn(3) == 0}
 		plan := fnPlan{f: f, stmts: 3 + r.Intn(6), depth: 2}
 		np := 1 + r.Intn(3)
+		pn := nm.params(np)
 		for j := range np {
 			t := tInt
 			if j > 0 {
@@ -2695,7 +2751,7 @@ func genProgram(idx int, tuples int) *program {
 			if t == tPtr && len(g.structs) == 0 {
 				t = tInt
 			}
-			v := &vr{name: fmt.Sprintf("a%d", j), t: t, bound: 1 << 31}
+			v := &vr{name: pn[j], t: t, bound: 1 << 31}
 			if t == tInts {
 				v.minLen = 1
 				v.bound = modBig - 1
@@ -2709,7 +2765,12 @@ func genProgram(idx int, tuples int) *program {
 			}
 			f.params = append(f.params, v)
 		}
-		switch r.Intn(11) {
+		if r.Intn(6) == 0 {
+			// a blank parameter: passed, counted, never read
+			f.params = append(f.params, &vr{name: "_", t: tInt, bound: 1 << 31})
+			g.f("blank-parameter")
+		}
+		switch r.Intn(13) {
 		case 8:
 			f.rets = []ty{tInt, tInt}
 		case 9:
@@ -2722,8 +2783,9 @@ func genProgram(idx int, tuples int) *program {
 			f.rets = []ty{tInt, tInt, tStr}
 		case 2:
 			f.rets = []ty{tBool}
-		case 3:
+		case 3, 11, 12:
 			f.rets = nil
+			g.f("procedure")
 		case 4:
 			f.rets = []ty{tStr}
 		default:
@@ -2755,16 +2817,25 @@ func genProgram(idx int, tuples int) *program {
 	// ---- exported functions
 	ne := 2 + r.Intn(2)
 	for i := 0; i < ne; i++ {
-		f := &fn{name: fmt.Sprintf("F%d", i), exported: true, retBound: modBig - 1}
+		f := &fn{name: nm.name(poolExported, fmt.Sprintf("F%d", i), 55), exported: true, retBound: modBig - 1, grouped: r.Intn(3) == 0}
+		if !isASCII(f.name) {
+			g.f("exported-name-not-ascii")
+		}
 		np := 1 + r.Intn(3)
+		pn := nm.params(np)
 		for j := range np {
 			t := tInt
 			if j > 0 {
 				t = []ty{tInt, tInt, tBool, tStr, tBytes}[r.Intn(5)]
 			}
-			f.params = append(f.params, &vr{name: fmt.Sprintf("a%d", j), t: t, bound: 1 << 31})
+			f.params = append(f.params, &vr{name: pn[j], t: t, bound: 1 << 31})
 		}
 		f.rets = []ty{[]ty{tInt, tInt, tInt, tInt, tBool, tStr, tBytes, tInts}[r.Intn(8)]}
+		if r.Intn(5) == 0 {
+			// an exported procedure: Void in the manifest, nothing left on the stack
+			f.rets = nil
+			g.f("exported-procedure")
+		}
 		plan := fnPlan{f: f, stmts: 4 + r.Intn(8), depth: 3}
 		switch r.Intn(6) {
 		case 0:
@@ -2789,6 +2860,7 @@ func genProgram(idx int, tuples int) *program {
 		p.feat = append(p.feat, k)
 	}
 	sort.Strings(p.feat)
+	p.cnt = g.cnt
 
 	// ---- calls: the first call sees the freshly initialised package
 	ar := rng.New(uint64(idx) + 15_000_000)
@@ -2830,7 +2902,7 @@ func (p *program) locate() {
 	}
 }
 
-var identRe = regexp.MustCompile(`[a-z][a-zA-Z0-9]*`)
+var identRe = regexp.MustCompile(`[\p{L}_][\p{L}\p{N}_]*`)
 
 // nonConstBool returns a boolean expression that is not a Go constant (two
 // equal constant cases in one switch do not compile).
